@@ -194,6 +194,9 @@ def run(ctx):
             os.chdir(old)
             os.close(fd)
     ctx.counted('REALPATH side clauses and root naming', n, n // 2, [{'pattern': '*/', 'path': 'vis'}])
+    from props import globcommon as _gcm
+    nm_ = _gcm.mixed_abs_rel(ctx, rng, 3 if ctx.quick else 10)
+    ctx.counted('lists mixing absolute and relative patterns', nm_, nm_ // 2, [{'patterns': ['<root>/to?', '*/*']}])
     # the REALPATH decision procedure itself: extracted RealMatch model vs _Match.match(real=True), regexes real and made up
     ctx.corr('REALPATH decision (_Match.match)', corr.corr_realpath(rng, [trees.DESIGNED[0], trees.DESIGNED[3], trees.DESIGNED[1], trees.DESIGNED[2]] +
                                                                    [trees.random_spec(rng, size=rng.randint(6, 12), cycles=False) for _ in range(2 if ctx.quick else 12)],
